@@ -78,14 +78,54 @@ theorem findObject_registered (e : Env) (full : Path) (i : Nat) (h : findObject 
         · simp at h
         · split at h
           · simp at h
-          · rename_i p hp
-            cases h2 : objFor e p with
-            | none => simp [h2] at h
-            | some o =>
-              simp only [h2] at h
-              injection h with h; subst h
-              exact ⟨p, h2⟩
+          · split at h
+            · simp at h
+            · rename_i p hp
+              cases h2 : objFor e p with
+              | none => simp [h2] at h
+              | some o =>
+                simp only [h2] at h
+                injection h with h; subst h
+                exact ⟨p, h2⟩
 
+/-- what the guard of fix 996ac8b changes: `find_object` answers as before, or — when the root does not bind the first
+component of the rest of the name — with `LookupError` -/
+theorem findObject_old_or (e : Env) (full : Path) :
+    findObject e full = findObjectOld e full ∨
+    (findObject e full = .lookupError ∧
+      ∃ r first tl ro, full = r :: first :: tl ∧ objFor e full = none ∧
+        e.st.roots.find? (fun ro => match getObj e.st ro with | some o => o.name = r | none => false) = some ro ∧
+        rootBinds e ro first = false) := by
+  unfold findObject findObjectOld
+  cases h1 : objFor e full with
+  | some o => exact Or.inl rfl
+  | none =>
+    cases full with
+    | nil => exact Or.inl rfl
+    | cons r rest =>
+      simp only
+      cases hf : e.st.roots.find? (fun ro => match getObj e.st ro with | some o => o.name = r | none => false) with
+      | none => exact Or.inl rfl
+      | some ro =>
+        cases rest with
+        | nil => exact Or.inl (by simp)
+        | cons first tl =>
+          simp only
+          cases hb : rootBinds e ro first with
+          | true => exact Or.inl (by simp)
+          | false => exact Or.inr ⟨by simp, r, first, tl, ro, rfl, trivial, hf, hb⟩
+
+theorem findObject_old_of_obj {e : Env} {full : Path} {i : Nat} (h : findObject e full = .obj i) :
+    findObjectOld e full = .obj i := by
+  rcases findObject_old_or e full with h1 | ⟨h1, _⟩
+  · exact h1 ▸ h
+  · rw [h1] at h; cases h
+
+theorem findObject_ne_of_old {e : Env} {full : Path} {F : Found} (hF : F ≠ .lookupError)
+    (h : findObjectOld e full ≠ F) : findObject e full ≠ F := by
+  rcases findObject_old_or e full with h1 | ⟨h1, _⟩
+  · rw [h1]; exact h
+  · rw [h1]; exact fun e => hF e.symm
 
 /-! ## stepping through `expandLoop` -/
 
@@ -212,6 +252,34 @@ end Registry
 
 namespace Names
 open Registry
+
+/-- the object named `py` lists, under `n1`, the child on the way to a registered `py ++ n1 :: rest'` -/
+theorem child_in_contents {s : State} (hI : Inv s) {py rest' : Path} {n1 : Name} {y x : Nat}
+    (hy : (py, y) ∈ s.all) (hx : (py ++ n1 :: rest', x) ∈ s.all) (hsup : isSupersededName n1 = false) :
+    ∃ yo y1, s.objs[y]? = some yo ∧ dget yo.contents n1 = some y1 := by
+  have hpyne : py ≠ [] := (hI.reg.hasPath hy).ne_nil
+  have hx' : ((py ++ [n1]) ++ rest', x) ∈ s.all := by simpa using hx
+  obtain ⟨y1, hy1, _⟩ := prefix_registered hI hx' (by simp)
+  have hy1P := hI.reg.hasPath hy1
+  obtain ⟨y1o, hy1o⟩ : ∃ o, s.objs[y1]? = some o := ⟨s.objs[y1]'hy1P.lt, by simp [hy1P.lt]⟩
+  obtain ⟨q, hq⟩ : ∃ q, y1o.parent = some q := by
+    cases hp : y1o.parent with
+    | some q => exact ⟨q, rfl⟩
+    | none =>
+      have h1 := congrArg List.length (hy1P.root_inv hy1o hp)
+      have h2 := List.length_pos_iff.2 hpyne
+      simp only [List.length_append, List.length_cons, List.length_nil] at h1; omega
+  obtain ⟨pq, hpq, e1⟩ := hy1P.child_inv hy1o hq
+  obtain ⟨e2, e3⟩ := List.append_inj' e1 rfl
+  simp only [List.cons.injEq, and_true] at e3
+  subst e2
+  have hqy : q = y := hI.reg.inj hy (hI.full q hpq.lt) hpq
+  subst hqy
+  obtain ⟨yo, hyo, hlist⟩ := (hI.tree.listed y1 y1o hy1o).2 q hq
+  refine ⟨yo, y1, hyo, ?_⟩
+  rcases hlist with h | h
+  · rw [e3]; exact h
+  · rw [← e3, hsup] at h; cases h
 
 /-- **descending along `contents`**: from `y` (named `py`) to a descendant `x` (named `py ++ rest`),
 when every object on the way is a module/package/class and no component is a superseded name,
@@ -574,10 +642,28 @@ theorem old_member_name_finds_of_forall {s s' : State} {obj newParent : Nat} {ne
   have hexp : expandName ⟨s', m⟩ ro (mid ++ (o.name :: rest)) = some (pnp ++ [newName] ++ rest) := by
     unfold expandName
     rw [hs1, hstepAlias, hstage2]
+  -- the guard of `find_object`: the root holds the first component below it in `contents`, or — when the
+  -- moved object sat directly in the root — as the alias `reparent` left
+  have hguard : ∃ f1 tl, mid ++ (o.name :: rest) = f1 :: tl ∧ rootBinds ⟨s', m⟩ ro f1 = true := by
+    cases hmid : mid with
+    | nil =>
+      subst hmid
+      have : ro = op := uniq_val hI'.reg.uniq hro hopm'
+      subst this
+      refine ⟨o.name, rest, rfl, ?_⟩
+      have hg : getObj s' ro = some opo' := hopo'
+      simp [rootBinds, hg, halias, hcls' ▸ hcc]
+    | cons n1 mid' =>
+      subst hmid
+      refine ⟨n1, mid' ++ (o.name :: rest), rfl, ?_⟩
+      obtain ⟨yo, y1, hyo, hd⟩ := child_in_contents hI' (py := [r]) (n1 := n1) (rest' := mid') hro
+        (by simpa using hopm') (hnames n1 (by rw [hfull]; simp))
+      have hg : getObj s' ro = some yo := hyo
+      simp [rootBinds, hg, hd]
+  obtain ⟨f1, tl, hftl, hbinds⟩ := hguard
   rw [hfull]
   unfold findObject
   simp only [hnone]
-  have hne : ¬ (mid ++ o.name :: rest = []) := by simp
   have hobjx : objFor ⟨s', m⟩ (pnp ++ [newName] ++ rest) = some x := dget_of_path hI' hx'
   split
   · rename_i heq
@@ -585,7 +671,8 @@ theorem old_member_name_finds_of_forall {s s' : State} {obj newParent : Nat} {ne
   · rename_i ro' heq
     have : ro' = ro := Option.some.inj (heq.symm.trans hfind)
     subst this
-    simp only [hne, if_false, hexp, hobjx]
+    rw [hftl] at hexp ⊢
+    simp only [hbinds, Bool.not_true, Bool.false_eq_true, if_false, hexp, hobjx]
 
 /-- `old_name_finds`, with the class hypothesis as a quantified statement -/
 theorem old_name_finds_of_forall {s s' : State} {obj newParent : Nat} {newName : Name}
